@@ -33,9 +33,12 @@ ASSUMPTIONS = [
     '(disputed in C10) are outside the universe; match-mode callables and T.attr access errors other than '
     'AttributeError are undocumented and left out',
     'fault positions are user callables (spec function, Invoke, T.method()), Check validators, property getters '
-    'reached by a path, and glom-detected failures, below chains of constructs; siblings of the chain are fixed '
+    'reached by a path, the next() of a one-shot iterator target (generator, iterator object, generator under a '
+    'key) walked by [subspec] at its 1st or 2nd item, and glom-detected failures, below chains of constructs; siblings of the chain are fixed '
     'per construct variant',
     'classes that cannot be subclassed (metaclass / __init_subclass__ tricks) are not in the catalogue',
+    'top-level defaults tried: opaque object, None, a list, a dict holding a T expression and a list, T itself; '
+    'identity of the returned default is what is judged',
     'TLC, the Json community module and the probe nodes (checked to be transparent by probe-less re-runs) are trusted',
 ]
 
@@ -69,6 +72,8 @@ def check_catalogue(leaf):
 def n_hows(ctxs, leaf):
     if leaf['kind'] == 'glomdoc':
         return len(W.GLOM_LEAVES[leaf['id']])
+    if ctxs and ctxs[-1]['k'] == 'geniter':
+        return 3
     if ctxs and ctxs[-1]['k'] in ('checkval', 'pathget'):
         return 1
     return len(W.USER_HOWS)
@@ -269,7 +274,7 @@ def rand_ctx(rng):
     return c
 
 
-KW_DEFAULTS = ['absent', 'obj', 'none']
+KW_DEFAULTS = ['absent', 'obj', 'none', 'list', 'dictT', 't']
 KW_SKIPS = ['absent', 'exact', 'other', 'tuple', 'tuple_non', 'glomerror', 'exception', 'keyerror', 'base']
 
 
@@ -288,8 +293,9 @@ def rand_row(rng):
     else:
         make_exc, desc = synth(rng)
         cid, kind = 'RCls', 'user'
-    if kind != 'glomdoc' and rng.random() < 0.15:
-        ctxs.append(dict(k=rng.choice(['checkval', 'pathget']), v='-', skip='-', sib='-', dflt='-'))
+    if kind != 'glomdoc' and rng.random() < 0.2:
+        lk = rng.choice(['checkval', 'pathget', 'geniter', 'geniter'])
+        ctxs.append(dict(k=lk, v=rng.choice(['k1', 'k2']) if lk == 'geniter' else '-', skip='-', sib='-', dflt='-'))
     kw = dict(default=rng.choice(KW_DEFAULTS), skip=rng.choice(KW_SKIPS), debug=rng.random() < 0.3)
     how = rng.randint(0, 11)
     if kind == 'glomdoc':
@@ -347,7 +353,7 @@ def record(check, n, seed, stats):
         row = rand_row(rng)
         if row is not None:
             rows.append(row)
-    judge_rows(check, rows, 'random', stats)
+    rejected = {id(r) for r, _ in judge_rows(check, rows, 'random', stats)}
     nt = set()
     for row in rows:
         check.cov['evaluations'] += 1
@@ -355,11 +361,12 @@ def record(check, n, seed, stats):
     check.cov['distinct_nontrivial'] += len(nt)
     for row in rows[:2]:
         check.sample(dict(kind='recorded', **row), limit=6)
-    return rows
+    check.extra['recorded_rows'] = len(rows)
+    return [r for r in rows if id(r) not in rejected]
 
 
 def corrupted_row_rejected(check, rows):
-    """machinery self-test: a recorded row with one corrupted field must be rejected"""
+    """machinery self-test: an accepted recorded row with one corrupted field must be rejected"""
     base = next((r for r in rows if r['out']['st'] == 'raised' and r['out']['args'] == 'same'
                  and r['out']['id'] in ('copy', 'wrap')), None)
     if base is None:
@@ -374,7 +381,7 @@ def corrupted_row_rejected(check, rows):
     check.extra['corrupted_row_rejected'] = True
 
 
-MUTANTS = {'copy_unguarded': 'InvClassKept', 'ctor_rerun': 'InvClassKept', 'skip_after_wrap': 'InvDefaultSelective', 'default_none_absent': 'InvDefaultSelective',
+MUTANTS = {'default_arg_val': 'InvDefaultSelective', 'iter_wraps': 'CreatedAreDocumented', 'copy_unguarded': 'InvClassKept', 'ctor_rerun': 'InvClassKept', 'skip_after_wrap': 'InvDefaultSelective', 'default_none_absent': 'InvDefaultSelective',
            'debug_copies': 'InvDebug', 'wrap_glom_only': 'InvClassKept', 'wrap_no_fallback': 'InvClassKept',
            'or_catches_all': 'PassThroughLaw'}
 
@@ -429,7 +436,7 @@ def main(tier, seed):
     check.extra['replayed'] = total
     check.extra['action_counts'] = acts
     needed = ['RaiseAt', 'Pass', 'CatchCoalesce', 'CatchOr', 'CatchAnd', 'CatchNot', 'CatchMatchDefault',
-              'CatchSwitch', 'CatchCheckSpec', 'CatchCheckVal', 'CatchPathGet', 'TopReturn', 'TopSkip', 'TopBase',
+              'CatchSwitch', 'CatchCheckSpec', 'CatchCheckVal', 'CatchPathGet', 'PassIter', 'TopReturn', 'TopSkip', 'TopBase',
               'TopDebug', 'TopCopy', 'TopWrap']
     missing = [a for a in needed if not acts.get(a)]
     if missing or not total['excluded']:
@@ -439,7 +446,6 @@ def main(tier, seed):
     # (3) code -> spec
     rows = record(check, {'quick': 8000, 'thorough': 80000}[tier], seed, stats)
     _t('record')
-    check.extra['recorded_rows'] = len(rows)
     check.extra['drift'] = stats.get('drift', 0)
     corrupted_row_rejected(check, rows)
     # (4) spec mutants (thorough): each wrong mechanism variant must violate its law
